@@ -170,7 +170,7 @@ static std::string run_case_inproc(const Case &c, bool *nontrivial)
 				wire.assign((const char *)buf.data(), n);
 				if (p.c_nct) deflateReset(&def);
 			}
-			bool corrupt = m.corrupt != 0 && compressed && !wire.empty();
+			bool corrupt = m.corrupt != 0 && m.corrupt != 4 && compressed && !wire.empty();
 			if (corrupt) {
 				uint32_t s = (uint32_t)m.cseed * 2654435761u + 12345;
 				if (m.corrupt == 1) wire[s % wire.size()] ^= (char)(1 << (s >> 8) % 8);
@@ -179,17 +179,21 @@ static std::string run_case_inproc(const Case &c, bool *nontrivial)
 			}
 			// fragment
 			std::vector<std::string> parts; size_t pos = 0;
-			for (int f : m.frags) { if (pos >= wire.size()) break; size_t n = std::min<size_t>((size_t)(f < 1 ? 1 : f), wire.size() - pos); parts.push_back(wire.substr(pos, n)); pos += n; }
+			// (a fragment size of 0 is an empty frame: legal anywhere in a fragmented message, RFC 6455 5.4)
+			for (int f : m.frags) { if (f == 0) { parts.push_back(""); continue; } if (pos >= wire.size()) break; size_t n = std::min<size_t>((size_t)(f < 1 ? 1 : f), wire.size() - pos); parts.push_back(wire.substr(pos, n)); pos += n; }
 			if (pos < wire.size() || parts.empty()) parts.push_back(wire.substr(pos));
 			c19_msg_clear(x);
+			bool abandoned = m.corrupt == 4 && parts.size() >= 2; // the client goes away in the middle of a fragmented message
+			if (abandoned) parts.pop_back();
 			for (size_t i = 0; i < parts.size(); i++) {
-				codec::WsFrame f; f.opcode = i == 0 ? m.kind : 0; f.fin = i + 1 == parts.size(); f.rsv = (i == 0 && compressed) ? 4 : 0; f.payload = parts[i];
+				codec::WsFrame f; f.opcode = i == 0 ? m.kind : 0; f.fin = !abandoned && i + 1 == parts.size(); f.rsv = (i == 0 && compressed) ? 4 : 0; f.payload = parts[i];
 				uint32_t mk = (uint32_t)(m.cseed * 31 + i * 7 + 1); f.mask[0] = mk; f.mask[1] = mk >> 8; f.mask[2] = mk >> 16; f.mask[3] = mk >> 24;
 				std::string enc = codec::ws_encode(f);
 				c19_feed(x, (const uint8_t *)enc.data(), enc.size());
 				if (c19_closed(x)) break;
 			}
 			uint8_t *mp; int done, kind; size_t mn = c19_msg(x, &mp, &done, &kind);
+			if (abandoned) { if (nontrivial) *nontrivial = true; break; } // nothing is delivered; what matters is what is left behind when the connection is released
 			if (corrupt) {
 				// adversarial input: anything but memory errors is acceptable; the state of both codecs is undefined afterwards,
 				// so nothing further can be expected from this connection
@@ -330,8 +334,8 @@ int main(int argc, char **argv)
 	});
 	auto msg = rc::gen::apply([](int dir, int kind, std::string p, std::vector<int> frags, int corrupt, int cseed) { Msg m; m.dir = dir; m.kind = kind; m.payload = p; m.frags = frags; m.corrupt = corrupt; m.cseed = cseed; if (kind == 1) for (auto &ch : m.payload) if ((unsigned char)ch >= 0x80) ch = 'u'; return m; },
 	                          rc::gen::element<int>(0, 0, 1), rc::gen::element<int>(1, 2), payload,
-	                          rc::gen::weightedOneOf<std::vector<int>>({{4, rc::gen::just(std::vector<int>{1000000})}, {4, rc::gen::resize(6, rc::gen::container<std::vector<int>>(rc::gen::weightedOneOf<int>({{3, R(1, 8)}, {2, R(8, 60)}, {1, R(60, 400)}})))}}),
-	                          rc::gen::weightedElement<int>({{12, 0}, {1, 1}, {1, 2}, {1, 3}}), R(0, 100000));
+	                          rc::gen::weightedOneOf<std::vector<int>>({{4, rc::gen::just(std::vector<int>{1000000})}, {4, rc::gen::resize(6, rc::gen::container<std::vector<int>>(rc::gen::weightedOneOf<int>({{3, R(1, 8)}, {2, R(8, 60)}, {1, R(60, 400)}, {1, rc::gen::just(0)}})))}}),
+	                          rc::gen::weightedElement<int>({{12, 0}, {1, 1}, {1, 2}, {1, 3}, {1, 4}}), R(0, 100000));
 	Case last; Result lastr; bool have = false;
 	bool ok = rc::check("C19", [&]() {
 			if (budget::over()) { budget::skipped()++; return; }
